@@ -433,6 +433,101 @@ func corrC17(outDir string, seed uint64, tier string, replay string) *report {
 			}
 		}
 	}
+	// several streams alive at once (encoders and decoders of one goroutine, operations interleaved), some closed twice,
+	// new streams opened after others were closed: every stream still carries exactly its own data
+	{
+		nRounds := 40
+		if tier == "thorough" {
+			nRounds = 600
+		}
+		for round := 0; round < nRounds; round++ {
+			c := cfgs[round%4]
+			type est struct {
+				data   []byte
+				w      *bytes.Buffer
+				enc    io.WriteCloser
+				off    int
+				closed int
+			}
+			// warm-up: streams that are finished (some closed twice) before the interleaved ones start
+			for k := 0; k < 1+round%3; k++ {
+				var b bytes.Buffer
+				e := base64le.NewEncoder(c.enc(), &b)
+				e.Write(r.bytes(r.intn(10)))
+				e.Close()
+				if (round+k)%2 == 0 {
+					e.Close()
+				}
+			}
+			var streams []*est
+			for k := 0; k < 2+round%3; k++ {
+				st := &est{data: r.bytes(r.intn(40)), w: &bytes.Buffer{}}
+				st.enc = base64le.NewEncoder(c.enc(), st.w)
+				streams = append(streams, st)
+			}
+			for live := len(streams); live > 0; {
+				st := streams[r.intn(len(streams))]
+				if st.closed > 0 {
+					if st.closed == 1 && r.intn(3) == 0 {
+						st.enc.Close() // a second Close is a no-op for the stream and for every other stream
+						st.closed++
+					}
+					continue
+				}
+				if st.off >= len(st.data) {
+					st.enc.Close()
+					st.closed = 1
+					live--
+					continue
+				}
+				k := 1 + r.intn(5)
+				if st.off+k > len(st.data) {
+					k = len(st.data) - st.off
+				}
+				st.enc.Write(st.data[st.off : st.off+k])
+				st.off += k
+			}
+			for i, st := range streams {
+				if want := c.enc().EncodeToString(st.data); st.w.String() != want {
+					rep.fail(map[string]interface{}{"cfg": c.String(), "streams_alive_together": len(streams), "stream": i, "data": fmt.Sprintf("%x", st.data)}, want, st.w.String(),
+						"an encoder's output differs from the one-shot encoding when other encoders are alive or were closed (twice) before")
+				}
+				rep.count(fmt.Sprint("interleaved", round, i), true)
+			}
+			// decoders: interleaved reads of several streams
+			type dst struct {
+				data []byte
+				dec  io.Reader
+				out  []byte
+				done bool
+			}
+			var ds []*dst
+			for k := 0; k < 2+round%2; k++ {
+				d := r.bytes(r.intn(60))
+				ds = append(ds, &dst{data: d, dec: base64le.NewDecoder(c.enc(), bytes.NewReader([]byte(c.enc().EncodeToString(d))))})
+			}
+			for live := len(ds); live > 0; {
+				d := ds[r.intn(len(ds))]
+				if d.done {
+					continue
+				}
+				buf := make([]byte, 1+r.intn(9))
+				n, err := d.dec.Read(buf)
+				d.out = append(d.out, buf[:n]...)
+				if err != nil {
+					d.done = true
+					live--
+				}
+			}
+			for i, d := range ds {
+				if !bytes.Equal(d.out, d.data) {
+					rep.fail(map[string]interface{}{"cfg": c.String(), "decoders_alive_together": len(ds), "stream": i}, fmt.Sprintf("%x", d.data), fmt.Sprintf("%x", d.out),
+						"a decoder's output differs from the one-shot decoding when other decoders are alive")
+				}
+			}
+			rep.bump("interleaved_rounds")
+		}
+	}
 	// exhaustive: every way a reader fragments a short text (compositions), several buffer sizes
 	maxT := 7
 	if tier == "thorough" {
